@@ -2,6 +2,7 @@
 //! continuity at exactly singular poses (B3, judged by Trace_Singular).
 use crate::oracle::{self, Iso};
 use crate::robots;
+use crate::shape;
 use crate::solver::{self, Robot};
 use crate::util::*;
 use rand::Rng;
@@ -92,40 +93,98 @@ pub fn record_cont(output: &str) {
         let mut p = robots::geometry(robots::GEOMETRY_CLASSES[k % robots::GEOMETRY_CLASSES.len()], &mut r);
         let offc = ["zero", "quarter", "random"][k % 3];
         p = robots::convention(p, r.gen_range(0..64), offc, &mut r);
-        let stack_class = ["bare", "tool", "base+tool", "frame"][(k / 3) % 4];
-        let robot = Robot::new(p, solver::stack_for(stack_class, &mut r), None);
+        // every second robot is a large one of the same proportions (the well-conditioned postures for which the
+        // property demands continuity are rare on short arms)
+        let scale = [1.0, 1.0, 3.0, 5.0][r.gen_range(0..4)];
+        p.a1 *= scale; p.a2 *= scale; p.b *= scale; p.c1 *= scale; p.c2 *= scale; p.c3 *= scale; p.c4 *= scale;
+        // one robot in nine has a shape (collision-aware wrapper around tool, base and limits; nothing collides here)
+        let shape_case = if k % 9 == 8 { Some(shape::make_case_scaled(&mut r, 2 * k, 0, false, None, &[], scale)) } else { None };
+        if let Some(c) = &shape_case { p = c.reference.p; }
+        let stack_class = if shape_case.is_some() { "shape" } else { ["bare", "tool", "base+tool", "frame"][(k / 3) % 4] };
+        let layers = match &shape_case { Some(c) => c.reference.layers.clone(), None => solver::stack_for(stack_class, &mut r) };
         // exactly singular: geometric J5 = 0; everything else random, inside +-pi in robot coordinates
-        let mut e: [f64; 6] = std::array::from_fn(|_| r.gen_range(-PI..PI));
-        e[4] = 0.0;
+        // (well-conditioned arm postures, for which the property demands continuity, are one in ten on robots of
+        //  ordinary size: up to 40 draws for one)
         let s = |i: usize| p.sign_corrections[i] as f64;
         let norm = |x: f64| { let mut a = x.rem_euclid(2.0 * PI); if a > PI { a -= 2.0 * PI; } a };
-        let q: Joints = std::array::from_fn(|i| norm((e[i] + p.offsets[i]) * s(i)));
+        let mut q: Joints = [0.0; 6];
+        for _ in 0..40 {
+            let mut e: [f64; 6] = std::array::from_fn(|_| r.gen_range(-PI..PI));
+            e[4] = 0.0;
+            q = std::array::from_fn(|i| norm((e[i] + p.offsets[i]) * s(i)));
+            if let Some(c) = &shape_case {
+                for i in 0..6 { if i != 4 { q[i] = r.gen_range(c.from[i] * 0.8..c.to[i] * 0.8); } }
+            }
+            if arm_sensitivity(&p, &q) < 240e-9 { break; }
+        }
+        if let Some(c) = &shape_case { if c.kws.collides(&q) { continue; } }
         let m = solver::margins(&p, &q);
-        if !(m.elbow > 0.1 && m.shoulder > 0.08) { continue; }
+        if !(m.elbow > 0.1 && m.shoulder > 0.08 * scale) { continue; }
+        // limits (two robots in seven): ranges centred at the singular posture itself, so that the CONSTRAINT_CENTERED
+        // sentinel stands for a previous position that realises the pose
+        let limited = shape_case.is_none() && matches!(k % 7, 3 | 5);
+        let limits = if limited {
+            // (J4 / J6 wide enough for the re-distributed split of a previous that does not realise the pose)
+            let hw: Joints = std::array::from_fn(|i| if i == 3 || i == 5 { r.gen_range(1.0..1.5) } else { r.gen_range(0.3..1.5) });
+            Some((std::array::from_fn(|i| q[i] - hw[i]), std::array::from_fn(|i| q[i] + hw[i]), [0.0, 0.5, 1.0][k % 3]))
+        } else if let Some(c) = &shape_case { Some((c.from, c.to, 0.0)) } else { None };
+        let sentinel = limited && k % 7 == 3;
+        let robot = Robot::new(p, layers, limits);
+        let kin: std::sync::Arc<dyn Kinematics> = match shape_case { Some(c) => std::sync::Arc::new(c.kws), None => robot.kin.clone() };
         let want = robot.ofk(&q);
         // previous: realises the pose exactly (half), or differs in the J4/J6 split and sum (half)
-        let realised = k % 2 == 0;
+        let realised = k % 2 == 0 || sentinel;
         let mut prev = q;
         if !realised {
             prev[3] += r.gen_range(-0.4..0.4);
             prev[5] += r.gen_range(-0.4..0.4);
         }
         // previous J4 / J6 wound up by whole turns (a multi-turn flange): the same posture, still realising the pose
-        if k % 5 == 1 {
-            prev[3] += 2.0 * PI * r.gen_range(-1..=1) as f64;
-            prev[5] += 2.0 * PI * r.gen_range(-1..=1) as f64;
+        if k % 5 == 1 && limits.is_none() {
+            prev[3] += 2.0 * PI * r.gen_range(-4..=4) as f64;
+            prev[5] += 2.0 * PI * r.gen_range(-4..=4) as f64;
+        }
+        if sentinel {
+            let (f, t, w) = limits.unwrap();
+            prev = rs_opw_kinematics::constraints::Constraints::new(f, t, w).centers;
         }
         let sens = arm_sensitivity(&p, &q);
-        // is another arm branch singular as well? (precondition only; uses the library's own plain inverse)
-        let others = robot.kin.inverse(&want.to_na());
-        let other_singular = others.iter().any(|a| {
-            let same_arm = (0..3).all(|j| { let d = (a[j] - q[j]).rem_euclid(2.0 * PI); d.min(2.0 * PI - d) < 1e-3 });
-            !same_arm && (a[4] * s(4) - p.offsets[4]).sin().abs() < 2e-4
-        });
-        let ans = solver::call(robot.kin.as_ref(), "inverse_continuing", &want.to_na(), &prev, 0.0);
+        // is another arm branch singular as well? (precondition only; uses the library's own plain inverse on the twin
+        // without limits, at the pose itself and at poses shifted by up to 10 um in six directions, because plain
+        // inverse tends to drop exactly singular solutions and the recovery looks at shifted poses too)
+        let mut other_singular = false;
+        for d in [[0.0, 0.0, 0.0], [1.25e-7, 0.0, 0.0], [0.0, 1.25e-7, 0.0], [0.0, 0.0, 1.25e-7], [1e-5, 0.0, 0.0], [0.0, 1e-5, 0.0], [0.0, 0.0, 1e-5], [-1e-5, 0.0, 0.0], [0.0, -1e-5, 0.0], [0.0, 0.0, -1e-5]] {
+            let mut leaf = oracle::fk(&p, &q);
+            leaf.t = oracle::add(&leaf.t, &d);
+            let bare = rs_opw_kinematics::kinematics_impl::OPWKinematics::new(p);
+            for a in bare.inverse(&leaf.to_na()) {
+                let same_arm = (0..3).all(|j| { let d = (a[j] - q[j]).rem_euclid(2.0 * PI); d.min(2.0 * PI - d) < 1e-3 });
+                if !same_arm && (a[4] * s(4) - p.offsets[4]).sin().abs() < 3e-4 { other_singular = true; }
+            }
+        }
+        let asked = if sentinel { rs_opw_kinematics::kinematic_traits::CONSTRAINT_CENTERED } else { prev };
+        let ans = solver::call(kin.as_ref(), "inverse_continuing", &want.to_na(), &asked, 0.0);
+        if std::env::var("VERIF_DEBUG_EV").ok().and_then(|x| x.parse::<usize>().ok()) == Some(out.n + 1) {
+            let bare = rs_opw_kinematics::kinematics_impl::OPWKinematics::new(p);
+            let mut leaf_na = want.to_na();
+            for l in robot.layers.iter() { match l {
+                solver::LayerF::Tool(i) | solver::LayerF::Frame(i) => leaf_na = leaf_na * i.to_na().inverse(),
+                solver::LayerF::Base(i) => leaf_na = i.to_na().inverse() * leaf_na,
+                _ => {} } }
+            let leaf = oracle::Iso::from_na(&leaf_na);
+            eprintln!("q = {:?}\nprev = {:?}", q, prev);
+            eprintln!("leaf pose err vs fk(q): {:e} {:e}", leaf.dpos(&oracle::fk(&p, &q)), leaf.drot(&oracle::fk(&p, &q)));
+            for d in [[0.0, 0.0, 0.0], [1.25e-7, 0.0, 0.0], [0.0, 1.25e-7, 0.0], [0.0, 0.0, 1.25e-7]] {
+                let mut sh = leaf_na; sh.translation.vector += nalgebra::Vector3::new(d[0], d[1], d[2]);
+                eprintln!("shift {:?}:", d);
+                for a in bare.inverse(&sh) { eprintln!("   {:?} sing {:?}", a, bare.kinematic_singularity(&a).is_some()); }
+            }
+            eprintln!("bare continuing:");
+            for a in bare.inverse_continuing(&leaf_na, &prev) { eprintln!("   {:?}", a); }
+        }
         let base = json!({"ev": "cont", "kind": "zero", "realised": realised, "prev": au6(&prev), "sens_nrad": nano(sens), "other_singular": other_singular,
             "s46_equal": p.sign_corrections[3] == p.sign_corrections[5], "offsets": offc, "stack": stack_class, "geom": robots::GEOMETRY_CLASSES[k % robots::GEOMETRY_CLASSES.len()],
-            "sign5": p.sign_corrections[4], "params": robots::params_json(&p), "truth": au6(&q)});
+            "sign5": p.sign_corrections[4], "limited": limits.is_some(), "sentinel": sentinel, "scale": scale, "layers": format!("{:?}", robot.layers), "params": robots::params_json(&p), "truth": au6(&q)});
         let mut ev = base;
         match ans {
             None => { ev["outcome"] = json!("panic"); ev["answers"] = json!([]); }
